@@ -10,6 +10,7 @@ import Driver.Race
 import Netpoll.Gen.Consts
 import Driver.Dial
 import Driver.Fd
+import Driver.Mgr
 def main (args : List String) : IO UInt32 := do
   match args with
   | ["lb"] => Driver.Lb.main; return 0
@@ -27,4 +28,6 @@ def main (args : List String) : IO UInt32 := do
   | ["dialspec", impl] => Driver.Dial.specMain impl; return 0
   | ["dialadmit"] => Driver.Dial.admitMain Netpoll.Dial.fixedCfg; return 0
   | ["fd"] => Driver.Fd.main; return 0
+  | ["mgr"] => Driver.Mgr.main; return 0
+  | ["mgrspec", ops, impl] => Driver.Mgr.specMain ops impl; return 0
   | _ => IO.eprintln "usage: npdriver <mode> ... (see lean/Driver/Main.lean)"; return 2
